@@ -450,3 +450,16 @@ def namespace_from_schema_name(a, f, ns_expr, schema_param, ns_param, sn_name="s
                 continue
         return False
     return True
+
+
+def tree_order(root):
+    """{id(node): position} in pre-order of the syntax tree (program order of evaluation for statements; line
+    numbers are not reliable after normalisation, which copies and moves statements)"""
+    order = {}
+    todo = [root]
+    while todo:
+        n = todo.pop()
+        order[id(n)] = len(order)
+        todo.extend(reversed(list(ast.iter_child_nodes(n))))
+    return order
+
